@@ -12,6 +12,7 @@ package main
 import (
 	"fmt"
 	"os"
+	"runtime/pprof"
 	"strings"
 	"sync"
 	"sync/atomic"
@@ -68,6 +69,11 @@ func main() {
 	}
 	c.startWatchdog()
 	cov := c.cov
+	if pf := os.Getenv("C20_CPUPROFILE"); pf != "" { // debugging aid only
+		if f, err := os.Create(pf); err == nil {
+			pprof.StartCPUProfile(f)
+		}
+	}
 
 	// debugging aid only: C20_SKIP=stream,mitm,chan,admit,mconn,long leaves parts out (evidence then says exhaustive=false)
 	cov.skipped = os.Getenv("C20_SKIP")
@@ -228,6 +234,7 @@ func (c *ctx) finish(aborted string) {
 
 func (c *ctx) finishOnce(aborted string) {
 	atomic.StoreInt32(&c.fl.off, 1)
+	pprof.StopCPUProfile()
 	cov := c.cov
 	cov.mu.Lock()
 	defer cov.mu.Unlock()
